@@ -12,7 +12,7 @@ from .. import env
 
 # names that are different names although some conversion (decoding, case folding, stripping, normalising) would identify them
 NAMES = ['a', 'b', 'a.b', b'a', 'A', 'a ', '\u00e1', 'a\u0301', None, '', 0]      # None, '' and 0 are names like any other (a key of the listener table)
-NCB = 6
+NCB = 8
 MAX_DELIVERIES = 400
 
 
@@ -32,6 +32,13 @@ class CallableObj(object):
 
     def __call__(self, *args, **ctx):
         return self.world.deliver(self.idx, args, ctx)
+
+
+class FalsyCallable(CallableObj):
+    """a callback that is falsy (a callable collection that is empty, an object defining __bool__): a callback like any other"""
+
+    def __len__(self):
+        return 0
 
 
 class Box(object):
@@ -68,7 +75,7 @@ class World(object):
                 h = Handler(i, self)
                 self.cbs.append(lambda h=h: h.handle)      # fresh bound method each time
             else:
-                c = CallableObj(i, self)
+                c = (FalsyCallable if i >= 4 else CallableObj)(i, self)
                 self.cbs.append(lambda c=c: c)
 
     def cb(self, i):
